@@ -243,6 +243,76 @@ def _fact(n):
 
 
 # --------------------------------------------------------------------------------------------
+# deep levels for a few classical bases: reference by the downward-closure characterisation
+# --------------------------------------------------------------------------------------------
+
+def downset_levels(basis, N):
+    """sigma avoids B  iff  sigma is not itself in B and every one-point deletion of sigma avoids B
+    (an occurrence of a shorter b misses some point).  Candidates of length n: insert the new
+    maximum at every position of a member of length n-1.  A different algorithm from the
+    library's (rightmost insertion with a deletion window) and cross-checked against the
+    pattern-profile table for small n in run()."""
+    basis = {tuple(b) for b in basis}
+    levels = [frozenset([()]) if () not in basis else frozenset()]
+    for n in range(1, N + 1):
+        prev = levels[-1]
+        new = set()
+        for p in prev:
+            for i in range(n):
+                q = p[:i] + (n - 1,) + p[i:]
+                if q in basis:
+                    continue
+                ok = True
+                for j in range(n):
+                    if j == i:
+                        continue
+                    if R.delete_point(q, j) not in prev:
+                        ok = False
+                        break
+                if ok:
+                    new.add(q)
+        levels.append(frozenset(new))
+    return levels
+
+
+def shard_deep(shard):
+    basis, N, variant = shard
+    Av, Perm = _lib()
+    part = Partial()
+    levels = downset_levels(basis, N)
+    case = {"basis": [("c", b) for b in basis], "N": N, "variant": variant}
+    Av.clear_cache()
+    try:
+        av = Av.from_iterable([Perm(b) for b in basis])
+        if variant == 0:
+            got_counts = [av.count(n) for n in range(N + 1)]
+        else:
+            top = av.count(N)
+            got_counts = [av.count(n) for n in range(N)] + [top]
+        exp_counts = [len(lv) for lv in levels]
+        if got_counts != exp_counts:
+            part.violation("deep", case, {"observer": "count", "expected": exp_counts,
+                                          "got": got_counts})
+        for n in sorted({N, N - 1, N - 2}):
+            got = [tuple(p) for p in av.of_length(n)]
+            if len(set(got)) != len(got) or set(got) != levels[n]:
+                extra = sorted(set(got) - levels[n])[:3]
+                missing = sorted(levels[n] - set(got))[:3]
+                part.violation("deep", case, {"observer": "of_length(%d)" % n,
+                                              "extra": extra, "missing": missing,
+                                              "got_size": len(got), "expected_size": len(levels[n])})
+                break
+    except Exception as exc:  # noqa
+        import traceback
+        part.violation("deep", case, {"exception": repr(exc),
+                                      "where": traceback.format_exc().splitlines()[-4:]})
+    part.add(1, 1 if 0 < len(levels[N]) < _fact(N) else 0)
+    part.bump("deep_top_level_members", len(levels[N]))
+    part.sample({"basis": basis, "levels_to": N, "top_level_size": len(levels[N])}, cap=1)
+    return part
+
+
+# --------------------------------------------------------------------------------------------
 # is_subclass over all ordered pairs of a pool
 # --------------------------------------------------------------------------------------------
 
@@ -588,6 +658,29 @@ def run(ctx, only=None):
         ctx.bounds["classical"] = [{"bases": len(f), "levels": n, "request_orders": list(v)}
                                    for f, n, v in fams]
         ctx.section("classical", evaluations=ctx.evals - e0)
+    if want("deep"):
+        e0 = ctx.evals
+        # the downward-closure reference must agree with the profile table where both exist
+        for b in ([(0, 1, 2)], [(1, 2, 0), (2, 0, 1)], [(0, 2, 1), (3, 2, 1, 0)], [(0,)], [(1, 0)]):
+            assert downset_levels(b, 6) == ref_levels([("c", x) for x in b], 6), b
+        s3 = R.perms(3)
+        pairs3 = list(itertools.combinations(s3, 2))
+        with4 = [[(0, 2, 1), (3, 2, 1, 0)], [(1, 2, 0), (3, 0, 1, 2)], [(0, 1, 2), (2, 1, 0, 3)],
+                 [(1, 0, 2), (0, 3, 2, 1)]]
+        plan = [([p], 11) for p in s3] + [(list(pr), 12) for pr in pairs3] + \
+               [(b, 10) for b in with4]
+        if not quick:
+            plan += [([p], 12) for p in s3] + [(list(pr), 13) for pr in pairs3] + \
+                    [(list(t), 13) for t in itertools.combinations(s3, 3)] + \
+                    [([p], 9) for p in R.perms(4)] + [(b, 12) for b in with4]
+        shards = [(b, n, v) for b, n in plan for v in (0, 1)]
+        shards.sort(key=lambda t: -t[1])      # the big ones first
+        ctx.pmap(shard_deep, shards)
+        ctx.bounds["deep"] = {"bases": len(plan), "levels": sorted({n for _, n in plan}),
+                              "request_orders": 2,
+                              "reference": "downward-closure construction (cross-checked with the "
+                                           "profile table to length 6)"}
+        ctx.section("deep", evaluations=ctx.evals - e0)
     if want("mesh"):
         e0 = ctx.evals
         NM = 4 if quick else 5
@@ -638,6 +731,10 @@ def replay(ctx, rec):
     sub, case = rec["sub"], rec["case"]
     if sub == "class":
         check_class(ctx, case["basis"], case["N"], case["variant"], in_upto=case["N"])
+    elif sub == "deep":
+        part = shard_deep(([tuple(d[1]) for d in case["basis"]], case["N"], case["variant"]))
+        for v in part.viols:
+            ctx.violation(v["sub"], v["case"], v["detail"], sig=v["sig"])
     elif sub == "subclass":
         pool = [[A.norm(d) for d in case["self"]], [A.norm(d) for d in case["other"]]]
         part = shard_subclass((pool, [0], 4))
